@@ -24,7 +24,7 @@ ANCHORS = [
 
 
 def plan(tier, seed):
-    return common.plan_shards(tier, seed, n_quick=60, n_thorough=500, budget_quick=35, budget_thorough=420, pops=True)
+    return common.add_m9_shard(common.plan_shards(tier, seed, n_quick=60, n_thorough=500, budget_quick=35, budget_thorough=420, pops=True), tier)
 
 
 def gates(tier):
@@ -44,4 +44,6 @@ def run_case(case, ctx):
 
 
 def run(spec, ctx):
+    if spec.get("m9"):
+        return common.run_m9(spec, ctx)
     common.loop(spec, ctx, xform.gen_case, run_case)
